@@ -76,18 +76,56 @@ def att_from(name, xt, n, seed, tag):
 FIRST = list("abcxyzABCXYZ_0159") + ["é", "Ω", "я", "水", "한"]
 REST = FIRST + list("_.@+-") + list(" !#$%&()*,:;<=>?[]^{|}~")
 BULK_ALPHA = b"abcdefghijklmnopqrstuvwxyz0123456789_.+-@"
+BULK_TABLE = bytes(BULK_ALPHA[c % len(BULK_ALPHA)] for c in range(256))
 
 
-@st.composite
-def name_st(draw, used):
-    kind = draw(st.integers(0, 19))
+class HypDraw:
+    """choices come from Hypothesis (small cases: shrinkable)"""
+
+    def __init__(self, draw):
+        self.draw = draw
+
+    def int(self, lo, hi):
+        return self.draw(st.integers(lo, hi))
+
+    def pick(self, seq):
+        return self.draw(st.sampled_from(list(seq)))
+
+    def bool(self):
+        return self.draw(st.booleans())
+
+
+class PureDraw:
+    """choices are a pure function of one drawn integer (large-header cases: Hypothesis' example mutation would otherwise spend
+    the expensive cases on near-duplicates of one header)"""
+
+    def __init__(self, x):
+        self.x = x
+        self.n = 0
+
+    def int(self, lo, hi):
+        self.n += 1
+        return lo + rint(self.x, self.n) % (hi - lo + 1)
+
+    def pick(self, seq):
+        seq = list(seq)
+        return seq[self.int(0, len(seq) - 1)]
+
+    def bool(self):
+        return self.int(0, 1) == 1
+
+
+def gen_name(d, used):
+    kind = d.int(0, 19)
     if kind == 0:
-        n = draw(st.integers(200, 256))
+        n = d.int(200, 256)
     elif kind <= 2:
-        n = draw(st.integers(9, 40))
+        n = d.int(9, 40)
     else:
-        n = draw(st.integers(1, 8))
-    s = draw(st.sampled_from(FIRST)) + "".join(draw(st.lists(st.sampled_from(REST), min_size=0, max_size=min(n - 1, 12))))
+        n = d.int(1, 8)
+    s = d.pick(FIRST)
+    for _ in range(d.int(0, min(n - 1, 12))):
+        s += d.pick(REST)
     b = s.encode("utf-8")
     if len(b) < n and n > 8:
         b = b + (b"q" * (n - len(b)))
@@ -106,139 +144,142 @@ def bulk_name(letter, idx, lo, hi, seed):
     pre = b"%s%x_" % (letter, idx)
     h = rint(seed, "nl", letter, idx)
     n = max(len(pre) + 1, lo + h % (hi - lo + 1))
-    fill = rbytes(seed, ("nm", letter, idx), n)
-    body = bytes(BULK_ALPHA[c % len(BULK_ALPHA)] for c in fill[:n - len(pre)])
+    body = rbytes(seed, ("nm", letter, idx), n - len(pre)).translate(BULK_TABLE)
     if (h >> 20) % 4 == 0 and len(body) >= 2:
         body = body[:-2] + "é".encode("utf-8")
     return pre + body
 
 
 # ------------------------------------------------------------------------------------------------ generator
-@st.composite
-def att_st(draw, version, used):
-    name = draw(name_st(used))
-    xt = draw(st.sampled_from(list(C.legal_types(version))))
-    k = draw(st.integers(0, 19))
-    n = 0 if k <= 2 else (draw(st.integers(13, 300)) if k == 3 else draw(st.integers(1, 12)))
-    return [name, xt, n, draw(st.integers(0, 2 ** 32 - 1))]
+def gen_att(d, version, used):
+    name = gen_name(d, used)
+    xt = d.pick(C.legal_types(version))
+    k = d.int(0, 19)
+    n = 0 if k <= 2 else (d.int(13, 300) if k == 3 else d.int(1, 12))
+    return [name, xt, n, d.int(0, 2 ** 32 - 1)]
 
 
-@st.composite
-def config_st(draw):
-    cfg = {"k": draw(st.sampled_from([1, 1, 2, 3, 4])), "hcoll": draw(st.booleans()),
-           "chunk": draw(st.sampled_from([None, 64, 1024, 65536])), "safe": draw(st.sampled_from([None, "0", "1"])),
-           "rw": draw(st.booleans()), "indep": draw(st.integers(0, 3)) == 0}
+def gen_config(d):
+    cfg = {"k": d.pick([1, 1, 2, 3, 4]), "hcoll": d.bool(), "chunk": d.pick([None, 64, 1024, 65536]),
+           "safe": d.pick([None, "0", "1"]), "rw": d.bool(), "indep": d.int(0, 3) == 0}
     hints = {}
-    if draw(st.integers(0, 2)) == 0:
+    if d.int(0, 2) == 0:
         for key in ("nc_hash_size_dim", "nc_hash_size_var", "nc_hash_size_gattr", "nc_hash_size_vattr"):
-            if draw(st.booleans()):
-                hints[key] = str(draw(st.sampled_from([1, 2, 7, 256, 4096])))
-    if draw(st.integers(0, 3)) == 0:
-        hints["nc_in_place_swap"] = draw(st.sampled_from(["enable", "disable", "auto"]))
+            if d.bool():
+                hints[key] = str(d.pick([1, 2, 7, 256, 4096]))
+    if d.int(0, 3) == 0:
+        hints["nc_in_place_swap"] = d.pick(["enable", "disable", "auto"])
     cfg["hints"] = hints
     return cfg
 
 
-TARGET_KINDS = ["list_tag", "list_nelems", "name_len", "name_bytes", "name_pad", "dim_len", "att_type", "att_nelems", "att_values",
-                "att_pad", "var_ndims", "var_dimid", "var_type", "var_vsize", "var_begin"]
 REGION_KINDS = {"dims": ["name_len", "name_bytes", "name_pad", "dim_len"],
                 "gatts": ["name_len", "name_bytes", "name_pad", "att_type", "att_nelems", "att_values", "att_pad"],
                 "vars": ["list_tag", "list_nelems", "name_len", "name_bytes", "name_pad", "att_type", "att_nelems", "att_values", "att_pad",
                          "var_ndims", "var_dimid", "var_type", "var_vsize", "var_begin"]}
 
 
-@st.composite
-def bulk_st(draw, tier):
-    region = draw(st.sampled_from(["dims", "gatts", "vars"]))
-    j = draw(st.sampled_from([1, 1, 1, 2, 3] if tier == "quick" else [1, 1, 2, 2, 3]))
-    lo = draw(st.integers(1, 120))
-    b = {"region": region, "boundary": j, "bytes": j * CHUNK + draw(st.integers(2000, 60000)),
-         "lo": lo, "hi": draw(st.integers(lo, 200)), "vlo": draw(st.integers(0, 40)), "seed": draw(st.integers(0, 2 ** 32 - 1))}
-    b["vhi"] = b["vlo"] + draw(st.sampled_from([0, 30, 400, 3000] if region != "dims" else [0]))
-    if region == "gatts" and draw(st.integers(0, 3)) == 0:
+def gen_bulk(d, tier):
+    region = d.pick(["dims", "gatts", "vars", "vars"])
+    j = d.pick([1, 1, 1, 2, 3] if tier == "quick" else [1, 1, 2, 2, 3])
+    lo = d.int(1, 120)
+    b = {"region": region, "boundary": j, "bytes": j * CHUNK + d.int(2000, 60000),
+         "lo": lo, "hi": d.int(lo, 200), "vlo": d.int(0, 40), "seed": d.int(0, 2 ** 32 - 1)}
+    b["vhi"] = b["vlo"] + (d.pick([0, 30, 400, 3000]) if region != "dims" else 0)
+    if region == "gatts" and d.int(0, 3) == 0:
         b["vhi"] = 150000       # a few huge attributes: values cross several chunk ends
-    if draw(st.integers(0, 4)) > 0:
-        b["target"] = draw(st.sampled_from(REGION_KINDS[region]))
-        b["where"] = draw(st.sampled_from(["before", "ends", "ends", "inside", "inside", "inside", "starts", "starts", "after"]))
-        b["inside"] = draw(st.integers(0, 63))
+    if d.int(0, 5) > 0:
+        b["target"] = d.pick(REGION_KINDS[region])
+        b["where"] = d.pick(["before", "ends", "ends", "inside", "inside", "inside", "starts", "starts", "after"])
+        b["inside"] = d.int(0, 63)
     else:
         b["target"] = None
     return b
 
 
-@st.composite
-def case_strategy(draw, tier="quick"):
-    version = draw(st.sampled_from([1, 2, 5]))
-    shape_kind = draw(st.integers(0, 39))
-    bulk = draw(bulk_st(tier)) if shape_kind <= 1 else None       # ~5% large headers
-    minimal = shape_kind == 2                                    # the 32-byte (48-byte for CDF-5) header
+def gen_case(d, tier, bulk=False):
+    version = d.pick([1, 2, 5, 5] if bulk else [1, 2, 5])
+    minimal = not bulk and d.int(0, 39) == 0            # the 32-byte (48-byte for CDF-5) header
+    b = gen_bulk(d, tier) if bulk else None
     # ---- dimensions
     used = set()
     dims = []
-    ndims = 0 if minimal else draw(st.integers(0, 5))
+    ndims = 0 if minimal else d.int(0, 5)
     has_rec = False
     for i in range(ndims):
-        k = draw(st.integers(0, 11))
-        if k <= 4 and not has_rec:
+        k = d.int(0, 11)
+        if k <= 3 and not has_rec:
             ln, has_rec = 0, True
-        elif k == 3:
-            ln = draw(st.sampled_from([7, 17, 64, 300]))
+        elif k == 4:
+            ln = d.pick([7, 17, 64, 300])
         else:
-            ln = draw(st.integers(1, 4))
-        dims.append([draw(name_st(used)), ln])
-    numrecs = draw(st.integers(0, 5)) if has_rec else 0
+            ln = d.int(1, 4)
+        dims.append([gen_name(d, used), ln])
+    numrecs = d.int(0, 5) if has_rec else 0
     # ---- global attributes
     used = set()
-    gatts = [draw(att_st(version, used)) for _ in range(0 if minimal else draw(st.integers(0, 3)))]
+    gatts = [gen_att(d, version, used) for _ in range(0 if minimal else d.int(0, 3))]
     # ---- variables
     used = set()
     vars_ = []
-    fixed_dims = [i for i, d in enumerate(dims) if d[1] != 0]
-    rec_dim = [i for i, d in enumerate(dims) if d[1] == 0]
-    nvars = 0 if minimal else draw(st.integers(0, 4))
+    fixed_dims = [i for i, dm in enumerate(dims) if dm[1] != 0]
+    rec_dim = [i for i, dm in enumerate(dims) if dm[1] == 0]
+    nvars = 0 if minimal else d.int(0, 4)
     seen_rec = False
     for vi in range(nvars):
-        nd = draw(st.sampled_from([0, 1, 1, 2, 2, 3, 5]))
+        nd = d.pick([0, 1, 1, 2, 2, 3, 5])
         dimids = []
         nel = 1
         for j in range(nd):
-            pool = list(fixed_dims)
-            if j == 0 and rec_dim and draw(st.booleans()):
+            if j == 0 and rec_dim and d.bool():
                 dimids.append(rec_dim[0])
                 continue
-            pool = [d for d in pool if nel * dims[d][1] <= 1500]
+            pool = [x for x in fixed_dims if nel * dims[x][1] <= 1500]
             if not pool:
                 break
-            d = draw(st.sampled_from(pool))
-            dimids.append(d)
-            nel *= dims[d][1]
-        xt = draw(st.sampled_from(list(C.legal_types(version))))
+            x = d.pick(pool)
+            dimids.append(x)
+            nel *= dims[x][1]
+        xt = d.pick(C.legal_types(version))
         vused = set()
-        atts = [draw(att_st(version, vused)) for _ in range(draw(st.sampled_from([0, 0, 1, 2])))]
-        vmode = draw(st.sampled_from(["ok", "ok", "ok", "zero", "sat", "stale"]))
+        atts = [gen_att(d, version, vused) for _ in range(d.pick([0, 0, 1, 2]))]
+        vmode = d.pick(["ok", "ok", "ok", "zero", "sat", "stale"])
         if vmode == "sat" and version == 5:
             vmode = "stale"
-        v = {"name": draw(name_st(used)), "xt": xt, "dimids": dimids, "atts": atts, "vsize": vmode,
-             "seed": draw(st.integers(0, 2 ** 32 - 1))}
+        v = {"name": gen_name(d, used), "xt": xt, "dimids": dimids, "atts": atts, "vsize": vmode, "seed": d.int(0, 2 ** 32 - 1)}
         if vmode == "stale":
-            v["stale"] = draw(st.integers(0, 2 ** 31 - 1) if version != 5 else st.one_of(st.integers(0, 2 ** 33), st.integers(0, 2 ** 63 - 1)))
+            # NON_NEG: below 2^31 (CDF-1/2) / 2^63 (CDF-5)
+            v["stale"] = d.int(0, 2 ** 31 - 1) if version != 5 else (d.int(0, 2 ** 33) if d.bool() else d.int(0, 2 ** 63 - 1))
         is_rec = bool(dimids) and dimids[0] in rec_dim
         # a gap is legal before every fixed-size variable and before the FIRST record variable only
-        if (not is_rec or not seen_rec) and draw(st.integers(0, 2)) == 0:
-            v["gap"] = 4 * draw(st.sampled_from([1, 2, 3, 16, 129, 1000]))
+        if (not is_rec or not seen_rec) and d.int(0, 2) == 0:
+            v["gap"] = 4 * d.pick([1, 2, 3, 16, 129, 1000])
         else:
             v["gap"] = 0
         seen_rec = seen_rec or is_rec
         vars_.append(v)
-    case = {"version": version, "numrecs": numrecs, "dims": dims, "gatts": gatts, "vars": vars_,
-            "tag0": {"dims": draw(st.booleans()), "gatts": draw(st.booleans()), "vars": draw(st.booleans()),
-                     "vatts": draw(st.booleans())},
-            "header_pad": draw(st.sampled_from([0, 0, 1, 3, 4, 37, 512, 5000])),
-            "var_align": draw(st.sampled_from([4, 4, 8, 512, 4096])), "rec_align": draw(st.sampled_from([4, 4, 8, 512, 4096])),
-            "gapseed": draw(st.integers(0, 2 ** 32 - 1)), "gapfill": draw(st.sampled_from(["random", "random", "zero", "ff"])),
-            "cut": draw(st.sampled_from([0, 0, 0, 1, 2, 3, 4, 5, 7, 8, 13, 50, 400, 10 ** 9])),
-            "bulk": bulk, "configs": [draw(config_st()), draw(config_st())]}
-    return case
+    return {"version": version, "numrecs": numrecs, "dims": dims, "gatts": gatts, "vars": vars_,
+            "tag0": {"dims": d.bool(), "gatts": d.bool(), "vars": d.bool(), "vatts": d.bool()},
+            "header_pad": d.pick([0, 0, 1, 3, 4, 37, 512, 5000]),
+            "var_align": d.pick([4, 4, 8, 512, 4096]), "rec_align": d.pick([4, 4, 8, 512, 4096]),
+            "gapseed": d.int(0, 2 ** 32 - 1), "gapfill": d.pick(["random", "random", "zero", "ff"]),
+            "cut": d.pick([0, 0, 0, 1, 2, 3, 4, 5, 7, 8, 13, 50, 400, 10 ** 9]),
+            "bulk": b, "configs": [gen_config(d), gen_config(d)]}
+
+
+@st.composite
+def small_strategy(draw, tier="quick"):
+    return gen_case(HypDraw(draw), tier)
+
+
+def bulk_strategy(tier="quick"):
+    """~0.25-1 MiB headers"""
+    return st.integers(0, 2 ** 40).map(lambda x: gen_case(PureDraw(x), tier, bulk=True))
+
+
+def case_strategy(tier="quick"):
+    """the mixture the campaign runs (campaign() runs the two parts separately to control the share of expensive cases)"""
+    return st.one_of(small_strategy(tier), small_strategy(tier), small_strategy(tier), bulk_strategy(tier))
 
 
 # ------------------------------------------------------------------------------------------------ case -> CDFFile
@@ -323,6 +364,15 @@ def boundary_labels(fields, ends):
             elif start + n == E:
                 lab.add("ends_at_end_" + kind)
     return lab
+
+
+class File(C.CDFFile):
+    """CDFFile whose header size is computed once after the content is final (it does not depend on vsize/begin values)"""
+    _hs = None
+
+    @property
+    def header_size(self):
+        return self._hs if self._hs is not None else len(C.header_bytes(self))
 
 
 def _att(a, tag):
@@ -452,7 +502,7 @@ def place_target(f, b):
 def build_file(case):
     """case -> (CDFFile with layout, {var: external bytes}, file bytes, info)"""
     ver = case["version"]
-    f = C.CDFFile(version=ver, numrecs=case["numrecs"])
+    f = File(version=ver, numrecs=case["numrecs"])
     f.dims = [C.Dim(bytes.fromhex(n), l) for n, l in case["dims"]]
     f.gatts = [_att(a, ("g", i)) for i, a in enumerate(case["gatts"])]
     f._c04_vseed, f._c04_vmode, f._c04_gap = [], [], []
@@ -487,6 +537,7 @@ def build_file(case):
                 info["labels"].add("tag0_vatts")
                 info["nontrivial"] = True
     # ---- layout
+    f._hs = len(C.header_bytes(f))
     gaps = {i: g for i, g in enumerate(f._c04_gap) if g}
     C.assign_layout(f, header_pad=case["header_pad"], var_align=case["var_align"], rec_align=case["rec_align"], gaps=gaps)
     problems = C.layout_problems(f)
@@ -541,7 +592,7 @@ def build_file(case):
         return rbytes(gs, ctr[0], n)
     fill = {"random": gapfill, "zero": None, "ff": b"\xff"}[case["gapfill"]]
     full = C.encode(f, data, fill_gap=fill)
-    if full[:hs] != C.header_bytes(f):
+    if len(full) < hs:
         raise RuntimeError("encode/header_bytes disagree")
     raw = full
     if f.vars and case["cut"]:
@@ -851,8 +902,9 @@ def case_script(case):
 
 
 def campaign(ctx):
-    n = {"quick": 260, "thorough": 2000}[ctx.tier]
-    runner.run_hypothesis(ctx, case_strategy(ctx.tier), runner.guarded(run_case), n)
+    n_small, n_bulk = {"quick": (190, 10), "thorough": (1800, 95)}[ctx.tier]
+    runner.run_hypothesis(ctx, small_strategy(ctx.tier), runner.guarded(run_case), n_small)
+    runner.run_hypothesis(ctx, bulk_strategy(ctx.tier), runner.guarded(run_case), n_bulk, label="bulk")
 
 
 if __name__ == "__main__":
